@@ -356,9 +356,14 @@ class HistSim(Sim):
         class Holder(SG.nn.Module):
             def __init__(self):
                 super().__init__()
+        # a small tree: every other parameter lives in a child (and one in a grandchild), so Module.zero_grad must recurse
         m = Holder()
+        child = Holder()
+        grand = Holder()
         for n, i in enumerate(ids):
-            setattr(m, f"p{n}", st.T[i])
+            setattr((m, child, m, grand)[n % 4] if ev.get("nested", True) else m, f"p{n}", st.T[i])
+        child.inner = grand
+        m.child = child
         st.module = m
         st.module_ids = ids
 
